@@ -128,6 +128,134 @@ theorem copeland_max_in_smith {v : Pairwise} (hwf : WF v) {c : Cand} (hc : c ∈
   have hle := hmax s hs.1
   linarith
 
+/-! ### Schulze is Smith-efficient -/
+
+theorem rmin_le_left (a b : Rat) : rmin a b ≤ a := by
+  unfold rmin; split
+  · exact le_of_lt ‹_›
+  · exact le_refl _
+
+/-- invariants of the path dictionary for a dominating set `S`: no path from an outsider into `S` has
+    positive strength, every direct win of a member over an outsider keeps a positive strength -/
+theorem widestPaths_dominating_inv {v : Pairwise} (hwf : WF v) {S : Cand → Prop} [DecidablePred S]
+    (hS : Graph.Dominating (candidates v) (Beats v) S) :
+    (pkeys (widestPaths v)).Nodup ∧ (∀ o s, ¬ S o → S s → pget (widestPaths v) (o, s) ≤ 0) ∧
+      (∀ s o, S s → o ∈ candidates v → ¬ S o → 0 < pget (widestPaths v) (s, o)) := by
+  apply widestPaths_preserves v (fun p => (pkeys p).Nodup ∧ (∀ o s, ¬ S o → S s → pget p (o, s) ≤ 0) ∧
+      (∀ s o, S s → o ∈ candidates v → ¬ S o → 0 < pget p (s, o)))
+  · have hnd : (pkeys (v.filter (fun e => decide (pget v (e.1.2, e.1.1) < e.2)))).Nodup :=
+      hwf.1.sublist (List.Sublist.map _ List.filter_sublist)
+    refine ⟨hnd, ?_, ?_⟩
+    · intro o s hno hs
+      rcases pget_mem_or_zero (v.filter (fun e => decide (pget v (e.1.2, e.1.1) < e.2))) (o, s) with h | ⟨_, h⟩
+      · exfalso
+        obtain ⟨hv, hlt⟩ := List.mem_filter.1 h
+        simp only [decide_eq_true_eq] at hlt
+        have ho : o ∈ candidates v := fst_mem_candidates hv
+        have hb := hS.2 s o hs ho hno
+        have hval := pget_of_mem hwf.1 hv
+        rw [← hval] at hlt
+        exact lt_asymm hb hlt
+      · rw [h]
+    · intro s o hs ho hno
+      have hb := hS.2 s o hs ho hno
+      have hpos : 0 < pget v (s, o) := lt_of_le_of_lt (pget_nonneg hwf _) hb
+      have hmem : ((s, o), pget v (s, o)) ∈ v.filter (fun e => decide (pget v (e.1.2, e.1.1) < e.2)) :=
+        List.mem_filter.2 ⟨pget_pos_mem hpos, by simpa [Beats] using hb⟩
+      rw [pget_of_mem hnd hmem]
+      exact hpos
+  · rintro p c1 c2 ca _ _ _ _ _ ⟨hnd, hin, hout⟩
+    refine ⟨nodup_pkeys_pset hnd _ _, ?_, ?_⟩
+    · intro o s hno hs
+      rw [pget_pset]
+      split
+      · rename_i heq
+        simp only [Prod.mk.injEq] at heq
+        obtain ⟨rfl, rfl⟩ := heq
+        refine rmax_le (hin _ _ hno hs) ?_
+        by_cases hc1 : S c1
+        · exact le_trans (rmin_le_left _ _) (hin _ _ hno hc1)
+        · exact le_trans (rmin_le_right _ _) (hin _ _ hc1 hs)
+      · exact hin o s hno hs
+    · intro s o hs ho hno
+      rw [pget_pset]
+      split
+      · rename_i heq
+        simp only [Prod.mk.injEq] at heq
+        obtain ⟨rfl, rfl⟩ := heq
+        exact lt_of_lt_of_le (hout _ _ hs ho hno) (rmax_ge_left _ _)
+      · exact hout s o hs ho hno
+
+/-- members of a dominating set win strictly more strongest-path comparisons than outsiders -/
+theorem schulze_dominating_gt {v : Pairwise} (hwf : WF v) {S : Cand → Prop} [DecidablePred S]
+    (hS : Graph.Dominating (candidates v) (Beats v) S) {s o : Cand} (hs : S s) (ho : o ∈ candidates v) (hno : ¬ S o) :
+    winsBy (pairwiseWins (widestPaths v) false) o < winsBy (pairwiseWins (widestPaths v) false) s := by
+  obtain ⟨hnd, hin, hout⟩ := widestPaths_dominating_inv hwf hS
+  have hkin := widestPaths_keys_in v
+  have hwnd := nodup_pairwiseWins_of_nodup hnd false
+  have hge := winsBy_ge_filter (wins := pairwiseWins (widestPaths v) false) (nodup_candidates v) s
+    (fun x => !decide (S x)) (by
+      intro x hx hq
+      simp only [Bool.not_eq_true', decide_eq_false_iff_not] at hq
+      rw [mem_pairwiseWins_of_nodup hnd]
+      have hpos := hout s x hs hx hq
+      exact ⟨List.mem_map.2 ⟨_, pget_pos_mem hpos, rfl⟩, lt_of_le_of_lt (hin x s hq hs) hpos⟩)
+  have hle := winsBy_le_filter (wins := pairwiseWins (widestPaths v) false) hwnd (cands := candidates v) o
+    (fun x => !decide (S x) && decide (x ≠ o)) (by
+      intro x hx
+      have hxc := (hkin _ (mem_pairwiseWins_key hx)).2
+      refine ⟨hxc, ?_⟩
+      rw [mem_pairwiseWins_of_nodup hnd] at hx
+      simp only [Bool.and_eq_true, Bool.not_eq_true', decide_eq_false_iff_not, decide_eq_true_eq]
+      constructor
+      · intro hSx
+        have h1 := hin o x hno hSx
+        have h2 := hout x o hSx ho hno
+        linarith [hx.2]
+      · rintro rfl; exact lt_irrefl _ hx.2)
+  have hlt := filter_length_lt (nodup_candidates v) (P := fun x => !decide (S x) && decide (x ≠ o))
+    (Q := fun x => !decide (S x)) (fun x _ h => by
+      simp only [Bool.and_eq_true] at h; exact h.1) ho (by simpa using hno) (by simp)
+  omega
+
+/-- every candidate Schulze names for a single seat lies in the Smith set -/
+theorem schulze_first_in_smith {v : Pairwise} (hwf : WF v) :
+    ∀ s ∈ schulze v 1, ∀ c ∈ slotMembers s, c ∈ smithSet v := by
+  intro sl hsl c hc
+  unfold schulze at hsl
+  simp only at hsl
+  set scores := (pairwiseWins (widestPaths v) false).foldl (fun d w => incr (incr d w.1 1) w.2 0)
+    ((candidates v).map (fun c => (c, (0 : Rat)))) with hscores
+  have hkeys : keys scores = candidates v := keys_schulzeScores v
+  have hknd : (keys scores).Nodup := by rw [hkeys]; exact nodup_candidates v
+  have hval : ∀ c, getD scores c 0 = (winsBy (pairwiseWins (widestPaths v) false) c : Rat) := by
+    intro c
+    rw [hscores, getD_schulzeFold, getD_zeroDict]; ring
+  obtain ⟨x, hcx, hmax⟩ := getNBest_one_max scores sl hsl c hc
+  have hcc : c ∈ candidates v := by rw [← hkeys]; exact List.mem_map.2 ⟨(c, x), hcx, rfl⟩
+  by_contra hnot
+  have hdom : Graph.Dominating (candidates v) (Beats v) (fun x => x ∈ smithSet v) := by
+    have : (fun x => x ∈ smithSet v) = Graph.SmithReach (candidates v) (Beats v) :=
+      funext fun x => propext (mem_smithSet hwf x)
+    rw [this]; exact Graph.smithReach_dominating
+  obtain ⟨s, hs⟩ := Graph.smithReach_nonempty (cands := candidates v) (B := Beats v)
+    (fun _ _ h => Beats.asymm h) (List.ne_nil_of_mem hcc)
+  have hs' : s ∈ smithSet v := (mem_smithSet hwf s).2 hs
+  have hlt := schulze_dominating_gt hwf hdom hs' hcc hnot
+  obtain ⟨es, hes, hes1⟩ : ∃ e ∈ scores, e.1 = s := by
+    have : s ∈ keys scores := by rw [hkeys]; exact hs.1
+    obtain ⟨e, he, h⟩ := List.mem_map.1 this
+    exact ⟨e, he, h⟩
+  have h1 := hmax es hes
+  rw [mem_getD_of_key hknd hes, hes1, hval] at h1
+  have h2 := mem_getD_of_key hknd hcx
+  simp only at h2
+  rw [hval] at h2
+  rw [h2] at h1
+  have : winsBy (pairwiseWins (widestPaths v) false) s ≤ winsBy (pairwiseWins (widestPaths v) false) c := by
+    exact_mod_cast h1
+  omega
+
 /-! ### members of the places of `copeland … 1` -/
 
 theorem getNBest_members_keys (d : Votes) (n : Nat) :
